@@ -940,6 +940,52 @@ def _c03_class(st, flags):
     return None
 
 
+# ------------------------------------------------------------------------- C09 (statement order)
+
+def _evidence(schema):
+    """{(shape, inverse, pred, kind, card): (ratio, count)} regardless of whether the fact sits on a line or in a comment."""
+    out = {}
+    for k, v in facts(schema).items():
+        out.setdefault(k[:5], []).append(v)
+    return out
+
+
+def judge_c09(ctx, ex):
+    a, b = ctx["runs"]
+    for r in ctx["runs"]:
+        if r["schema"] is None:
+            yield (r["parse_problem"], True, None)
+            return
+    la, lb = {sh.label: sh for sh in a["schema"].shapes}, {sh.label: sh for sh in b["schema"].shapes}
+    if set(la) != set(lb):
+        yield ("statement order changes the set of shapes: %r vs %r" % (sorted(la), sorted(lb)), True, None)
+        return
+    for label in la:
+        yield ("statement order changes the instance count of %s" % label, fig_differs(ex, la[label].n_instances, lb[label].n_instances), None)
+    va, vb = statements_view(a["schema"]), statements_view(b["schema"])
+    tie_free = not any(t in ctx["structure"]["tags"] for t in ("ref-tie", "mixed-typed-values", "iri+bnode"))
+    for label in va:
+        if set(va[label]) != set(vb[label]):
+            yield ("statement order changes the constraint keys of %s: %r vs %r" % (label, sorted(va[label], key=repr), sorted(vb[label], key=repr)), True, None)
+        elif tie_free and {k: sorted(v, key=repr) for k, v in va[label].items()} != {k: sorted(v, key=repr) for k, v in vb[label].items()}:
+            yield ("statement order changes the chosen constraints/cardinalities of %s although no kinds are tied: %r vs %r" % (label, va[label], vb[label]), True,
+                   None if a["flags"]["keep_less_specific"] else "STAGE-order-dependent-cardinality-tie")
+    ea, eb = _evidence(a["schema"]), _evidence(b["schema"])
+    lossy = not tie_free or not a["flags"]["discard_useless_constraints_with_positive_closure"] or not a["flags"]["keep_less_specific"]
+    for k in set(ea) | set(eb):
+        if k not in ea or k not in eb:
+            if not lossy:
+                yield ("statement order changes the reported evidence: fact %r appears in one order only" % (k,), True, None)
+            continue
+        ra, ca = ea[k][0]
+        rb, cb = eb[k][0]
+        cls = "STAGE-nonliteral-merge-figures" if k[3] == "NONLITERAL" else None
+        if k[4] == "+" and a["flags"]["disable_exact_cardinality"]:
+            continue
+        yield ("statement order changes the count reported for %r" % (k,), fig_differs(ex, ca, cb), cls)
+        yield ("statement order changes the ratio reported for %r" % (k,), fig_differs(ex, ra, rb), cls)
+
+
 # ------------------------------------------------------------------------- C18 (call history on one Shaper)
 
 def judge_c18(ctx, ex):
@@ -967,12 +1013,12 @@ def judge_c18(ctx, ex):
 
 JUDGES = {
     "C01": [judge_c01], "C02": [judge_c02], "C04": [], "C05": [judge_c05], "C12": [judge_c12], "C12z": [judge_c12_zero], "C12o": [judge_c12_one],
-    "C14": [judge_c14], "C11": [judge_c11], "C13": [judge_c13], "C03": [judge_c03], "C18": [judge_c18],
+    "C14": [judge_c14], "C11": [judge_c11], "C13": [judge_c13], "C03": [judge_c03], "C18": [judge_c18], "C09": [judge_c09],
 }
 
 
 def _cref(c, i=0):
-    return ConcreteRef(c["triples"] if c["reals"][i]["run"]["graph"] == "G" else __import__("harness.stage", fromlist=["x"]).reverse_triples(c["triples"]),
+    return ConcreteRef(c["triples"] if c["reals"][i]["run"]["graph"] != "R" else __import__("harness.stage", fromlist=["x"]).reverse_triples(c["triples"]),
                        c["reals"][i]["run"]["flags"]["inverse_paths"], c.get("instances"))
 
 
@@ -1025,4 +1071,5 @@ CONCRETE = {
     "C13": lambda c: _run_symbolic_judge_concretely(judge_c13, c),
     "C03": _conc_c03,
     "C18": lambda c: _run_symbolic_judge_concretely(judge_c18, c),
+    "C09": lambda c: _run_symbolic_judge_concretely(judge_c09, c),
 }
